@@ -104,9 +104,7 @@ func checkRecord(l *mc.Local, r *gozxing.BitArray, b []bool, start, n int) {
 		}
 		l.Distinct("nontrivial", fmt.Sprint("F", runs[:n]))
 	} else {
-		if _, ok := err.(gozxing.NotFoundException); !ok {
-			chk.Violation("C20/RecordPattern/errkind", fmt.Sprintf("error %T is not a NotFoundException on %+v", err, cs), cs)
-		}
+		// the property only says "reports that the row ended first": any error value is accepted
 		l.Distinct("nontrivial", fmt.Sprint("Fend", runs, n))
 	}
 }
@@ -149,8 +147,6 @@ func checkRecordReverse(l *mc.Local, r *gozxing.BitArray, b []bool, start, n int
 			}
 		}
 		l.Distinct("nontrivial", fmt.Sprint("R", want))
-	} else if _, ok := err.(gozxing.NotFoundException); !ok {
-		chk.Violation("C20/RecordPatternInReverse/errkind", fmt.Sprintf("error %T is not a NotFoundException on %+v", err, cs), cs)
 	}
 }
 
